@@ -103,7 +103,7 @@ def check_case(case, res, inst, configs):
 
 def recheck(case):
     cfg = (case["system"], case["pmaxsat"])
-    base_case = {k: case[k] for k in ("n", "sig", "weakly", "base", "queries")}
+    base_case = {k: case[k] for k in ("n", "sig", "weakly", "base", "queries", "inference_kwargs") if k in case}
     res = rel.eval_small((base_case, [cfg]))
     r = res[rel.cfg_name(cfg)]
     if r[0] != "ok":
@@ -163,6 +163,10 @@ def run(ctx):
         else:
             inst = c["inst"]
         cfgs = rel.EXT_CFG if c["weakly"] else rel.STRICT_CFG
+        if len(jobs) % 9 == 4:
+            # the same postulates under parallel evaluation with a time budget that never fires
+            c["inference_kwargs"] = rng.choice([{"multi_inference": True, "inference_timeout": 600}, {"multi_inference": True, "total_timeout": 900},
+                                                {"multi_inference": True}])
         jobs.append((c, cfgs))
         metas.append(inst)
     results = rel.pmap(ctx, rel.eval_small, jobs)
@@ -170,6 +174,8 @@ def run(ctx):
         fs, live = check_case(c, res, inst, cfgs)
         ctx.evaluations += len(inst) * len(cfgs)
         ctx.bump(f"mode={'ext' if c['weakly'] else 'strict'}")
+        if c.get("inference_kwargs"):
+            ctx.bump("parallel_evaluation_with_budget")
         ctx.bump("instances_with_true_premises", live)
         for k, r in res.items():
             if r[0] == "err":
